@@ -163,6 +163,8 @@ class Schema:
             box = z3.simplify(z3.Select(p.store_of(sk, Ref), o.ref))
             boxed = p.ghost.get("boxed", {}).get(str(box))
             if boxed is None:
+                if p.entails(isn):
+                    return None
                 hook = ip.reg.unbox_hooks.get(sk) if hasattr(ip.reg, "unbox_hooks") else None
                 if hook is None:
                     raise Unsupported(f"content of {sk} is not tracked on this path")
@@ -693,3 +695,11 @@ class Schema:
         if h is None:
             raise Unsupported("sorted()")
         return h(ip, it, key, node)
+
+    def filtered_comprehension(self, ip, e, fr, first):
+        """[elt for x in S if pred]: a sequence of unknown length m whose non-emptiness is the existence of an index
+        satisfying pred (instances via the registry hook); elements are opaque members of S satisfying pred."""
+        h = getattr(ip.reg, "filtered_comprehension_hook", None)
+        if h is None:
+            raise Unsupported("filtered comprehension over a symbolic-length sequence")
+        return h(ip, e, fr, first)
